@@ -23,6 +23,17 @@ CLAIMED = {
         "returned by _backward/_forward/_generate is exactly the set of nodes of the execution trace). Front-end graphs are covered through the "
         "same theorem once their graphs are shown well-formed (C14); their correspondence streams run the same oracle.",
    note=TB + "Modelled: coq/Graph.v.", ref="5/C05"),
+ "C18": dict(cat="proof", tech="Coq proof of a cache invariant over all call histories + correspondence of the cache state machine",
+   text="C18_generate_all / C18_generate_one_valid: for EVERY pipeline function, history of calls (overrides, failures, any order) and probe call the result "
+        "equals the fresh-cache result (invariant: every cached entry equals compute(key, flag)); C18_separation; C18_refuted_pinned keeps the defect of the "
+        "pinned code. Tie: extracted model vs generate.py on random descriptions x histories, plus fresh-cache oracle on the implementation.",
+   note=TB + "Modelled: coq/OpenApi.v; the JSON pipeline inside SampleCache.add is a parameter (function of schema text and is_body) - that it is such a function "
+        "is checked by the fresh-cache oracle only. Aliasing of sample objects between cache and requests is not modelled.", ref="5/C18"),
+ "C19": dict(cat="proof", tech="Coq proof (split/join round-trip) + exhaustive-shape correspondence with format.py",
+   text="C19_roundtrip: for all names, both styles x both explode settings and all flat values (delimiter-free, non-empty items) decoding the rendering by the "
+        "OpenAPI 3 style table returns the value with scalars as strings; C19_form_explode_array (documented exception); C19_reject (only the library exception, "
+        "only for non scalar/list/dict). Tie: extracted model vs format.py on every style x explode x shape; spec decoder cross-checked against an independent Python decoder.",
+   note=TB + "Modelled: coq/Format.v; numbers enter the model as the text Python's str() gives (float formatting not modelled); booleans inside containers are outside the quantifier.", ref="5/C19"),
 }
 
 NOT_YET = {}
